@@ -496,6 +496,9 @@ package interpreter
 //@ func (f *Function) Call [C04,C03,C07]
 //@ requires [recv] f != nil
 //@ requires [interp] i != nil
+// nesting depth of interpreted calls: no counter exists in the interpreter, so this measure cannot decrease (known finding D-19:
+// unbounded recursion exhausts the Go stack, `fatal error: stack overflow`)
+//@ decreases callBudget(i)
 //@ let decl = f.Declaration
 //@ let np = len(f.Declaration.Params)
 // (pairwise distinct parameter names, stated through an arbitrary indexing of the names: nameIndex(P[k]) == k for all k)
